@@ -17,6 +17,15 @@ RULE = (
     "order, the dataclass also with its first fields on a (plain or decorated) base class; the four verdicts and reports must be equal to each other (and to the model's). non-trivial = distinct field list with >=2 "
     "annotated fields"
 )
+RULE += " Also: family `unwrap-forms` — base types spelled through a `type`-statement alias (npt.NDArray[...], user-defined generic aliases of typing / typing_extensions, bare aliases) x three tensor classes x the three decorator forms x a conforming / wrong-rank / wrong-dtype value: the outcome of the same declaration with the type written out."
+
+
+def custom(run, tier):
+    # base types spelled through a `type`-statement alias (npt.NDArray[...], user-defined generic aliases): each decorator form gives the
+    # outcome of the same declaration with the type written out
+    from checks import unwrapcommon
+
+    unwrapcommon.forms(run, tier)
 
 
 def cases(tier, rng, run):
